@@ -1,4 +1,5 @@
 import StamModel.Rel
+import StamModel.Lemmas.RelGen
 /-
   C13 — Text-selection relations have their documented algebraic meaning.
   Property theorems only. All statements quantify over every `Nat` range, every resource and
@@ -242,5 +243,23 @@ example : (⟨2, 5⟩ : TSel).WF ∧ test (.equals false false) ⟨2, 5⟩ ⟨2,
 example : test (.precedes false false true) ⟨0, 2⟩ ⟨4, 6⟩ ⟨[false, false, true, true, false, false]⟩ = true
     ∧ test (.precedes false false true) ⟨0, 2⟩ ⟨4, 6⟩ ⟨[false, false, true, false, false, false]⟩ = false := by decide
 example : setTestSet (.sameend true true) ⟨[⟨0, 3⟩, ⟨1, 2⟩], false⟩ ⟨[⟨2, 3⟩], false⟩ ⟨[]⟩ = false := by decide
+
+/-! ### Tie to the source: the relation arms are regenerated from `src/textselection.rs` on every run -/
+
+/-- **the model's pairwise test is the source's**: `Stam.Gen.relPos` is what the translator renders from the arms of
+`impl TestTextSelection for TextSelection :: test` as they are in /repo now; on every operator without `negate` it
+computes what the model (`relPos`, which every theorem above is about) computes. -/
+theorem source_arms_are_the_model (op : Op) (a c : TSel) (r : Res) (h : op.neg = false) :
+    Gen.relPos op a c r = some (relPos op a c r) := gen_relPos_agrees op a c r h
+
+/-- … and on every operator with `negate` the source has no arm of its own: it negates the arm of `toggle_negate`,
+which is what `test` does. -/
+theorem source_test_is_the_model (op : Op) (a c : TSel) (r : Res) :
+    test op a c r = (if op.neg then (Gen.relPos op.toggleNeg a c r).map (!·) else Gen.relPos op a c r).getD false :=
+  gen_test_agrees op a c r
+
+/-- the recursive arm names all twelve operators (none falls through to `unreachable!`) -/
+theorem source_negation_arm_complete : Gen.negatedArm.length = 12 := by
+  rw [gen_negatedArm_complete]; decide
 
 end Stam.C13
